@@ -7,8 +7,18 @@ use vstd::prelude::*;
 verus! {
 //@include prelude.inc
 #[verifier::external_body] pub struct World { _p: u8 }
-#[verifier::external_body] pub struct SystemCommandSetup { _p: u8 }
-#[verifier::external_body] pub struct SystemCommandCleanup { _p: u8 }
+// fn-pointer fields are outside Verus' subset: they are opaque values here; the other field is the repo's.
+#[verifier::external_body] pub struct FnPtr { _p: u8 }
+pub struct SystemCommandSetup { pub reactor: SystemCommand, pub setup: FnPtr }
+pub struct SystemCommandCleanup { pub cleanup: Option<FnPtr> }
+// read-only World queries a variant of this function might consult (ASSUMED: pure reads)
+pub struct EntityRef { pub e: Entity }
+pub struct EntityFetchError;
+impl World {
+    pub uninterp spec fn alive(&self) -> Set<Entity>;
+    #[verifier::external_body]
+    pub fn get_entity(&self, e: Entity) -> (r: Result<EntityRef, EntityFetchError>) ensures r is Ok <==> self.alive().contains(e) { unimplemented!() }
+}
 pub uninterp spec fn setup_eff(s: SystemCommandSetup, w: World) -> World;
 pub uninterp spec fn cleanup_eff(c: SystemCommandCleanup, w: World) -> World;
 pub uninterp spec fn gc_eff(w: World) -> World;
